@@ -394,6 +394,8 @@ pub fn alphabet(v: Version, honest_len: usize, tier: Tier) -> Vec<Op> {
 thread_local! {
     /// when set, `execute` spells the pinned key this way (C03 key-spelling family)
     pub static KEY_SPELLING: std::cell::Cell<Option<u8>> = std::cell::Cell::new(None);
+    /// run the client with its other options: message dump, request/response files, no -v, no -z
+    pub static ALT_FLAGS: std::cell::Cell<bool> = std::cell::Cell::new(false);
 }
 
 pub struct Outcome {
@@ -428,7 +430,13 @@ pub fn execute(sc: &Scenario, op: &Op, with_key: Option<bool>, json_out: bool, p
         Some(sp) => key_spelling(sp),
         None => key_arg(b),
     }));
-    let mut args: Vec<&str> = vec!["-z", "-v", "-f", "%s %f", "-p", proto, "-t", "5"];
+    let alt = ALT_FLAGS.with(|a| a.get());
+    let dir = if alt { Some(crate::proc::scratch_dir()) } else { None };
+    let (f1, f2) = match &dir {
+        Some(d) => (d.join("requests.bin").display().to_string(), d.join("responses.bin").display().to_string()),
+        None => (String::new(), String::new()),
+    };
+    let mut args: Vec<&str> = if alt { vec!["-d", "-f", "%s %f", "-p", proto, "-t", "5", "-o", &f1, "-O", &f2] } else { vec!["-z", "-v", "-f", "%s %f", "-p", proto, "-t", "5"] };
     if let Some(k) = &key {
         args.push("-k");
         args.push(k);
@@ -442,9 +450,12 @@ pub fn execute(sc: &Scenario, op: &Op, with_key: Option<bool>, json_out: bool, p
         sent = d.clone();
         vec![vec![d]]
     })?;
+    if let Some(d) = &dir {
+        let _ = std::fs::remove_dir_all(d);
+    }
     let times = printed_times(&run.exit.stdout);
     let accepted = run.exit.code == Some(0) && !times.is_empty();
-    let verified_yes = run.exit.stderr.contains("verified=Yes") || run.exit.stdout.contains("\"verified\": true");
+    let verified_yes = alt || run.exit.stderr.contains("verified=Yes") || run.exit.stdout.contains("\"verified\": true");
     Ok(Outcome { accepted, times, verified_yes, run, reply: sent })
 }
 
@@ -490,9 +501,14 @@ pub fn run_c01(ctx: &Ctx) -> Result<(), String> {
             // key given as hex for all, base64 for the non-bitflip operators; JSON output for a subset
             par_for(ops.len(), 8, |k, _| {
                 let op = &ops[k];
-                let variants: Vec<(bool, bool)> = if matches!(op, Op::FlipBit(_) | Op::Truncate(_)) { vec![(k % 2 == 0, k % 7 == 0)] } else { vec![(false, false), (true, true)] };
-                for (b64, js) in variants {
-                    let out = match execute(&sc, op, Some(b64), js, &prev_honest) {
+                // third variant of the structured operators: the client's other options (-d dump, -o/-O
+                // request/response files, neither -v nor -z)
+                let variants: Vec<(bool, bool, bool)> = if matches!(op, Op::FlipBit(_) | Op::Truncate(_)) { vec![(k % 2 == 0, k % 7 == 0, k % 11 == 0)] } else { vec![(false, false, false), (true, true, false), (false, false, true)] };
+                for (b64, js, alt) in variants {
+                    ALT_FLAGS.with(|a| a.set(alt));
+                    let r = execute(&sc, op, Some(b64), js && !alt, &prev_honest);
+                    ALT_FLAGS.with(|a| a.set(false));
+                    let out = match r {
                         Ok(o) => o,
                         Err(e) => {
                             *failed.lock().unwrap() = Some(e);
@@ -513,7 +529,7 @@ pub fn run_c01(ctx: &Ctx) -> Result<(), String> {
                     if out.accepted {
                         if let Err(clause) = truth {
                             ctx.violation("accepted-unauthentic", clause, op.family(),
-                                json!({"kind":"client","version":v.name(),"n":n,"i":i,"op":op.name(),"key":if b64 {"base64"} else {"hex"},"json":js,
+                                json!({"kind":"client","version":v.name(),"n":n,"i":i,"op":op.name(),"key":if b64 {"base64"} else {"hex"},"json":js,"other_client_options":alt,
                                        "request":hex_trunc(req, 2048),"reply":hex_trunc(&out.reply, 4096),"exit":out.run.exit.code,"stdout":out.run.exit.stdout,"stderr_first":out.run.exit.stderr.lines().take(4).collect::<Vec<_>>(),"failed_clause":clause}));
                         } else if !out.verified_yes {
                             ctx.violation("accepted-with-key-but-not-verified-yes", "client", op.family(), json!({"kind":"client","version":v.name(),"op":op.name(),"stdout":out.run.exit.stdout}));
